@@ -26,6 +26,7 @@ type c10Scenario struct {
 	FloodOff bool      `json:"flood_setting"` // Config.Flood = true from the start: no line may be delayed
 	ToggleAt int       `json:"toggle_at"`     // >=0: Config.Flood is set to true before this line (after the queue drained)
 	OffAt    int       `json:"off_at"`        // > ToggleAt: Config.Flood is set back to false before this line; -1 never
+	Wide        bool   `json:"wide"`          // payload made of three-byte characters
 	ReconnectAt int    `json:"reconnect_at"`  // >=0: before this line the client is closed and connects again at once (the penalty is the client's, not the connection's)
 	Lines    []c10Line `json:"lines"`
 
@@ -49,7 +50,7 @@ const c10Tol = 250 * time.Millisecond    // stated tolerance of the window bound
 
 func genC10(t *rapid.T, maxLines int, idx int) *c10Scenario {
 	// the composition of a batch is fixed: every sixth scenario has Flood set, every sixth toggles it
-	sc := &c10Scenario{ToggleAt: -1, OffAt: -1, ReconnectAt: -1, FloodOff: idx%6 == 5}
+	sc := &c10Scenario{ToggleAt: -1, OffAt: -1, ReconnectAt: -1, FloodOff: idx%6 == 5, Wide: idx%2 == 1}
 	n := rapid.IntRange(3, maxLines).Draw(t, "nlines")
 	for i := 0; i < n; i++ {
 		sc.Lines = append(sc.Lines, c10Line{Len: rapid.SampledFrom([]int{0, 1, 50, 120, 300, 500}).Draw(t, "len"), GapMS: rapid.SampledFrom([]int{0, 0, 0, 500, 2500, 6000}).Draw(t, "gap_ms")})
@@ -148,7 +149,11 @@ func runC10One(sc *c10Scenario) ([]c10Obs, *Violation) {
 			}
 			tc.C.Config().Flood = false
 		}
-		line := fmt.Sprintf("L %d %s", k, strings.Repeat("x", l.Len))
+		unit := "x"
+		if sc.Wide {
+			unit = "\u65e5" // three bytes per character
+		}
+		line := fmt.Sprintf("L %d %s", k, strings.Repeat(unit, l.Len/len(unit)))
 		mu.Lock()
 		enq[line] = time.Now()
 		exempt[line] = sc.FloodOff || (sc.ToggleAt >= 0 && k >= sc.ToggleAt && !(sc.OffAt > sc.ToggleAt && k >= sc.OffAt))
